@@ -14,6 +14,11 @@ def correspond(ctx):
                         bigs=graphcorr.graph_bigs() + graphcorr.graph_bigs("sparse") + graphcorr.medium_bigs())
     graphcorr.run_cases(ctx, graphcorr.case_path, ctx.n(200, 3000), "path", with_ids=True, native_sets=True, bigs=graphcorr.graph_bigs("sparse") + [b for b in graphcorr.medium_bigs("rotate") if b[1] <= 60])   # (the model's line graph is cubic in the number of edges)
     graphcorr.run_cases(ctx, graphcorr.case_frame_cycle, ctx.n(60, 600), "frame", with_ids=True, native_sets=True, bigs=graphcorr.frame_bigs())
+    ctx.extra["huge"] = "Graph.line_graph() of " + ", ".join(h[0] for h in huge_graphs()) + " (edge ids beyond 2^16) vs the definition the model implements"
+    for name, n, edges, lost, bogus, note in line_graph_scale_probe():
+        ctx.disagree("line-graph-scale", what=f"Graph.line_graph() of {name} ({len(edges)} edges): {note}; e.g. missing {lost[:3]}, spurious {bogus[:3]}",
+                     data={"huge": name})
+    ctx.count("corr:huge-line-graph", len(huge_graphs()))
     if not ctx.quick():
         for f in search(ctx, None, budget=40):
             ctx.disagree("semantic", what=f.what, data=f.data)
@@ -116,7 +121,7 @@ def _check_frame(H, W, prim):
     return None
 
 
-def _check_edge_patterns(n, edges, prim, path, patterns):
+def _check_edge_patterns(n, edges, prim, path, patterns, timeout=30):
     """Selected edge sets of a medium / large graph (see graphs.edge_patterns): satisfiability and the returned is_passed values."""
     from cspuz import graph as G
     mk = graphs.mk_graph(n, edges)
@@ -131,7 +136,7 @@ def _check_edge_patterns(n, edges, prim, path, patterns):
             r = f(s, vs, mk, use_graph_primitive=prim)
             st["passed"] = [exprio.pexpr(x) for x in r.data]
         return call
-    decls, cs, base, _ = graphs.real_program(builder)
+    decls, cs, base, _ = graphs.real_program(builder, timeout=timeout)
     for name, pat in patterns:
         want, passed = (spec_path if path else spec_cycle)(n, edges, pat)
         model = exprio.solve_prog(decls, cs, base, {f"b{i}": pat[i] for i in range(m)})
@@ -174,6 +179,89 @@ def _check_frame_patterns(H, W, prim, patterns):
 
 
 BIG_FRAMES = ((6, 6), (5, 5), (4, 8), (7, 9), (15, 16))
+
+
+# ------------------------------------------------------------------ HUGE graphs: edge ids beyond 16 bits
+#
+# The primitive route hands the LINE GRAPH of the caller's graph to the connectivity primitive.  The Lean model of the line graph is
+# cubic in the number of edges and the real `_active_vertices_connected` flattens the edge list quadratically (about 40 s for 65 538
+# edges), so program equality stops at a few hundred edges.  What the size of an instance can still change above that is the line
+# graph itself (edge ids packed into machine-sized fields, ...): the real `Graph.line_graph()` of graphs with more than 2^16 edges is
+# compared, as a multiset of unordered pairs, with the definition the model implements (two distinct edges are adjacent iff they share
+# an endpoint; one pair per two edges).  Linear time; runs in both tiers.  Only when it differs does the search pay for the real
+# constraint generator on such a graph.
+
+HUGE_N = (1 << 16) + 2
+
+
+def huge_graphs():
+    ring = [(k, (k + 1) % HUGE_N) if k % 5 else ((k + 1) % HUGE_N, k) for k in range(HUGE_N)]
+    n2 = 35_000
+    braid = [(k, (k + 1) % n2) for k in range(n2)] + [((k + 2) % n2, k) for k in range(n2)]      # 70 000 edges, every degree 4
+    return [("ring-65538", HUGE_N, ring), ("braid-70000", n2, braid)]
+
+
+def line_pairs_by_definition(n, edges):
+    inc = [[] for _ in range(n)]
+    for k, (a, b) in enumerate(edges):
+        inc[a].append(k)
+        if b != a:
+            inc[b].append(k)
+    out = set()
+    for ks in inc:
+        for i in range(len(ks)):
+            for j in range(i):
+                out.add((ks[j], ks[i]) if ks[j] < ks[i] else (ks[i], ks[j]))
+    return out
+
+
+def line_graph_scale_probe():
+    """[(name, n, edges, lost, bogus, note)] for the huge graphs whose real line graph is not the one of the definition."""
+    from cspuz.graph import Graph
+    out = []
+    for name, n, edges in huge_graphs():
+        g = Graph(n)
+        for a, b in edges:
+            g.add_edge(a, b)
+        lg = core.with_timeout(60, g.line_graph)
+        got = sorted((a, b) if a < b else (b, a) for a, b in lg.edges)
+        want = line_pairs_by_definition(n, edges)
+        note = None
+        if lg.num_vertices != len(edges):
+            note = f"line graph has {lg.num_vertices} vertices for {len(edges)} edges"
+        elif len(got) != len(set(got)):
+            note = "an adjacency is reported more than once"
+        if note or set(got) != want:
+            lost = sorted(want - set(got))
+            bogus = sorted(set(got) - want)
+            out.append((name, n, edges, lost, bogus, note or f"{len(lost)} adjacent pairs missing, {len(bogus)} pairs of edges that share no endpoint"))
+    return out
+
+
+def huge_search(found):
+    """Failing input of the real primitive route on a huge graph whose line graph is wrong (slow: minutes)."""
+    for name, n, edges, lost, bogus, note in line_graph_scale_probe():
+        m = len(edges)
+        tries = []
+        for (x, y) in lost[:1] + lost[-1:]:
+            tries.append((True, f"edges {x} and {y} (a simple path of two edges)", [k in (x, y) for k in range(m)]))
+        if name.startswith("ring"):
+            tries.append((False, "every edge (the ring itself: one simple cycle)", [True] * m))
+        for path, pname, pat in tries:
+            key = "huge:" + ("path" if path else "cycle")
+            if key in found:
+                continue
+            try:
+                bad = _check_edge_patterns(n, edges, True, path, [(pname, pat)], timeout=600)
+            except Exception as e:
+                bad = ("exception", None, core.err_name(e), str(e)[:200])
+            if bad:
+                act = [k for k in range(m) if pat[k]]
+                found[key] = Finding(
+                    ("path" if path else "cycle") + ":prim:huge-graph",
+                    f"active_edges_single_{'path' if path else 'cycle'}(use_graph_primitive=True) on {name} ({n} vertices, {m} edges; "
+                    f"edge k of the ring joins k and k+1 mod n), active = {pname}: {bad[2]} but {bad[3]}; Graph.line_graph(): {note}",
+                    {"huge": name, "path": path, "active_ids": act if len(act) <= 8 else "all", "pattern_name": pname})
 
 
 def search(ctx, why, budget=None):
@@ -241,10 +329,19 @@ def search(ctx, why, budget=None):
                 found[key] = Finding("cycle:frame:large", f"active_edges_single_cycle on a {H}x{W} BoolGridFrame (prim={prim}), active segments "
                                      f"({bad[0]}) = {bad[1]}: {bad[2]} but {bad[3]}",
                                      {"bigframe": True, "H": H, "W": W, "prim": prim, "pattern_name": bad[0], "segments": bad[1]})
+    huge_search(found)
     return list(found.values())
 
 
 def replay(ctx, data):
+    if data.get("huge"):
+        for name, n, edges in huge_graphs():
+            if name == data["huge"]:
+                ids = data["active_ids"]
+                pat = [True] * len(edges) if ids == "all" else [k in ids for k in range(len(edges))]
+                bad = _check_edge_patterns(n, edges, True, data["path"], [(data.get("pattern_name"), pat)], timeout=600)
+                return Finding("c06:replay", f"still fails: {str(bad)[:400]}", data) if bad else None
+        return None
     if data.get("big"):
         edges = [tuple(e) for e in data["edges"]]
         act = [tuple(e) for e in (data["active_edges"] or [])]
